@@ -44,6 +44,10 @@ func genConc(g *sim.Stream, tier string) *concProg {
 		maxM = 60
 		if tier == "thorough" {
 			maxM = 400
+			if g.Chance(1, 10) {
+				// the property's upper end: 10^4 messages over up to four senders
+				maxM = 2500
+			}
 		}
 	}
 	p.S = g.Range(1, 4)
